@@ -7,10 +7,15 @@ let ename e = match e with
   | 0 -> "0" | 1 -> "EPERM" | 2 -> "ENOENT" | 11 -> "EAGAIN" | 14 -> "EFAULT" | 17 -> "EEXIST" | 21 -> "EISDIR"
   | 9 -> "EBADF" | 22 -> "EINVAL" | 32 -> "EPIPE" | n -> Printf.sprintf "E%d" n
 let str_q = function QComp -> "COMP" | QDone -> "DONE"
-let str_res = function RValue -> "value" | RError e -> "error " ^ ename (int_of_nat e) | RDone -> "done"
+(* the model only distinguishes EAGAIN / EPERM / any other errno; the other one of a run is the
+   errno given as the `fail` argument *)
+let other = ref "EOTHER"
+let kname = function KAgain -> "EAGAIN" | KPerm -> "EPERM" | KOther -> !other
+let kind_of_errno n = if n = 11 then KAgain else if n = 1 then KPerm else KOther
+let str_res = function RValue -> "value" | RError e -> "error " ^ kname e | RDone -> "done"
 let render = function
   | ESys SOk -> "!io ok"
-  | ESys (SFail e) -> "!io -1 " ^ ename (int_of_nat e)
+  | ESys (SFail e) -> "!io -1 " ^ kname e
   | EState (io_add, oi, oc) ->
     let o = int_of_nat oi * 65536 + int_of_nat oc in
     Printf.sprintf "op.state A.acq_rel %d->%d" o (o + (if io_add then 65536 else 1))
@@ -39,14 +44,15 @@ let () =
     match args with
     | variant :: kind :: start :: pre :: nstop :: ready0 :: fail :: pollable :: "|" :: tids ->
       let p = { fixed = (variant = "fixed"); is_write = (kind = "w"); remote = (start = "R"); pre = (pre = "1");
-                nstop = nat_of_int (int_of_string nstop); ready0 = (ready0 = "1");
-                fail = (if fail = "-" then None else Some (nat_of_int (int_of_string fail)));
+                ready0 = (ready0 = "1");
+                fail = (if fail = "-" then None else (other := ename (int_of_string fail); Some (kind_of_errno (int_of_string fail))));
                 pollable = (pollable = "1") } in
       let step t s = IoCancel.step (nat_of_int t) s in
-      let (st, tr) = Lockstep.run step render (IoCancel.init p) (ints_of_words tids) in
+      let (cfg, tr) = Lockstep.run step render (IoCancel.init p (nat_of_int (int_of_string nstop))) (ints_of_words tids) in
+      let st = cfg.co in
       Printf.sprintf "%s # completed=%s uaf=%s stale=%s crashed=%s reg=%s ready=%s xfer=%d errs=%s stopped=%s parked_ok=%s queued=%d"
-        tr (str_list str_res (List.rev st.completed)) (b01 st.uaf) (b01 st.stale) (b01 (IoCancel.crashed st))
-        (b01 st.reg) (b01 st.ready) (int_of_nat st.xfer) (str_list (fun e -> ename (int_of_nat e)) (List.rev st.errs))
+        tr (str_list (fun r -> String.concat ":" (String.split_on_char ' ' (str_res r))) (List.rev st.completed)) (b01 st.uaf) (b01 st.stale) (b01 (IoCancel.crashed st))
+        (b01 st.reg) (b01 st.ready) (int_of_nat st.xfer) (str_list kname (List.rev st.errs))
         (b01 st.stopped) (b01 (IoCancel.parked_ok st))
         (List.length st.batch + List.length st.localq + List.length st.remoteq)
     | _ -> "ERR args")
